@@ -13,3 +13,9 @@ claim("C13",
       "Decides on every path of bufferedWriter's methods that the underlying WriteHeader is reachable only once (tested-false then set-true), that body bytes reach the underlying writer only after the commit, that status/statusSet are frozen after the commit, that a recorded status is marked pending or committed, that the committed code is the recorded status, that nothing outside bufferedWriter touches the raw writer, and that every beginResponse is paired with a deferred commitPending. These make the commit-once clauses hold for every call order; the bytes the client sees and middleware ordering are not decided.",
       "trusts the net/http.ResponseWriter contract; method summaries recomputed each run; single goroutine per response; middleware order clause explicitly not claimed",
       "DESIGN.md §2 C13")
+
+claim("C04",
+      "grammar-shape extraction from the recursive-descent expression parser (operator tokens per level, operand callees, loop vs recursion) compared with the embedded operator table; switch-table extraction for token→node constructors",
+      "Decides how every expression is grouped: relative order of each adjacent pair of precedence levels, associativity per level, one level per operator, operand level of prefix operators and casts, continuation of the signed-number split, and the token→constructor table (coverage, distinctness, operand order, compound assignments). It does not decide what the evaluator computes for the grouped tree.",
+      "assumes the parser stays a recursive-descent ladder (otherwise the check fails with an unresolved anchor rather than a verdict); operators identified by token.TokenDefinitions literals; reference table restates the property statement",
+      "DESIGN.md §2 C04")
